@@ -299,6 +299,12 @@ def main(pid, tier, seed):
             # unsupported structures dominate
             pws = ['bob@aol.com'] * 4 + ['www.google.com12', 'x@y.org1', 'pass'] + ['a.b@gmail.com!'] * 2
             coverage = 0.6
+        if k == 2 and pid == 'C06':
+            # nothing but unsupported structures, and a Markov pseudo-count N * (1 / coverage - 1) BELOW 1: the Markov structure
+            # is then the only entry of the base-structure list and must carry probability 1
+            pws = rng.choice([['bob@aol.com'], ['bob@aol.com', 'www.google.com12'], ['a.b@gmail.com!']])
+            coverage = rng.choice([0.6, 0.8]) if len(pws) == 1 else rng.choice([0.8, 0.75])
+            pool, enc = 'ascii', 'utf-8'
         if enc == 'utf-16':
             raw = '\n'.join(pws).encode('utf-16') + '\n'.encode('utf-16')[2:]
             kw = dict(raw=raw)
